@@ -1,4 +1,5 @@
 import SunriseVerif.Model.CLAccrual
+import SunriseVerif.Model.CLAccrualAbs
 import SunriseVerif.Props.C06
 import SunriseVerif.Lemmas.Dec
 import Mathlib.Tactic.Linarith
@@ -692,6 +693,25 @@ theorem fee_in_range (s : St) (f : Int) (p : Pos) (hlt : p.lo < p.hi) (hin : p.l
     owed (step s (.fee f)) p = owed s p + p.s * (if s.active = 0 then 0 else tquo (f * PREC) s.active) := by
   rw [owed_addG s (step s (.fee f)) (if s.active = 0 then 0 else tquo (f * PREC) s.active) p hlt rfl rfl rfl]
   simp [inR, hin]
+
+/-- soundness of the executable check the driver runs on the abstraction of every dumped state: a state on which `invOn`
+    is false does not satisfy `Inv`, hence is not a reachable state of the abstraction -/
+theorem invOn_of_inv (a : St) (ts : List Int) (h : Inv a) : invOn ts a = true := by
+  unfold invOn
+  simp only [Bool.and_eq_true, List.all_eq_true, decide_eq_true_eq]
+  refine ⟨⟨⟨⟨?_, ?_⟩, h.active_eq⟩, h.backed⟩, h.k_nonneg⟩
+  · intro p hp
+    have w := h.wf p hp
+    refine ⟨⟨⟨w.1, w.2.1⟩, w.2.2.1⟩, ?_⟩
+    split
+    · rename_i h0; exact decide_eq_true (w.2.2.2 h0)
+    · rfl
+  · intro t _
+    exact ⟨h.gross_eq t, h.net_eq t⟩
+
+theorem invOn_reachable (a : St) (ts : List Int) (h : Reachable a) : invOn ts a = true :=
+  invOn_of_inv a ts (inv_reachable a h)
+
 
 -- non-vacuity: a concrete history (two positions, fees, a crossing, claims) is reachable, has positive claims,
 -- and its second claim is zero
